@@ -104,6 +104,9 @@ type Item struct {
 func (it Item) Enc() string {
 	switch it.Kind {
 	case 'H':
+		if it.NS == 1 {
+			return "Hx"
+		}
 		return "H" + common.B(it.OK)
 	case 'A':
 		var s []string
@@ -593,7 +596,11 @@ func render(it Item, pos int, server, s2s, ws bool) []byte {
 			attrs["from"] = "example.net"
 		}
 		name := "stream:stream"
-		if !it.OK {
+		if it.NS == 1 {
+			// a good header of the other framing
+			ws = !ws
+		}
+		if !it.OK && it.NS != 1 {
 			v := pos % 5
 			if server && (v == 1 || v == 3) {
 				v = 0
@@ -905,6 +912,9 @@ func ParseLine(line string) (Case, error) {
 			switch s[0] {
 			case 'H':
 				it.OK = s == "H1"
+				if s == "Hx" {
+					it.NS = 1
+				}
 			case 'A':
 				if len(s) > 1 {
 					for _, a := range strings.Split(s[1:], ",") {
